@@ -34,7 +34,7 @@ structure Dev where
   deriving DecidableEq, Repr
 
 /-- the code as it is -/
-def Dev.cur : Dev := ⟨true, true, true⟩
+def Dev.cur : Dev := ⟨true, false, true⟩   -- descentNoSelf repaired in /repo (ba8abfd)
 /-- with the proposed fixes -/
 def Dev.fixed : Dev := ⟨false, false, false⟩
 
